@@ -169,6 +169,55 @@ fn run_inner(sc: &J) -> Result<Option<String>, String> {
                 Err(e) => Ok(Some(format!("file cannot be opened: {e}"))),
             }
         }
+        // C14: a file of `blocks` (each a list of hex datums under `schema`) cut at `cut` (or at every offset if absent):
+        // values delivered = values of the blocks wholly before the cut; an error unless the cut is a block boundary
+        // (or inside/at the header: opening fails).  With `flip` = byte offset, that byte is inverted instead.
+        "container_cut" => {
+            let schema = Schema::parse_str(sc["schema"].as_str().ok_or("schema")?).map_err(|e| e.to_string())?;
+            let blocks: Vec<Vec<Vec<u8>>> = sc["blocks"].as_array().ok_or("blocks")?.iter().map(|b| b.as_array().unwrap().iter().map(|d| crate::hex(d.as_str().unwrap())).collect()).collect();
+            let mut file = Vec::new();
+            let mut boundaries = Vec::new(); // (offset after block i, values so far)
+            let mut all: Vec<Value> = Vec::new();
+            {
+                let mut w = apache_avro::Writer::builder().schema(&schema).writer(&mut file).marker([7u8; 16]).build().map_err(|e| e.to_string())?;
+                w.flush().map_err(|e| e.to_string())?;
+                let hdr_len = w.get_ref().len();
+                boundaries.push((hdr_len, 0usize));
+                for b in &blocks {
+                    for d in b { let v = apache_avro::from_avro_datum(&schema, &mut &d[..], None).map_err(|e| e.to_string())?; w.append_value_ref(&v).map_err(|e| e.to_string())?; all.push(v); }
+                    w.flush().map_err(|e| e.to_string())?;
+                    boundaries.push((w.get_ref().len(), all.len()));
+                }
+            }
+            let check = |data: &[u8], expect_vals: usize, expect_err: bool, open_fails: bool, what: String| -> Option<String> {
+                match apache_avro::Reader::new(data) {
+                    Err(_) => if open_fails { None } else { Some(format!("{what}: opening failed unexpectedly")) },
+                    Ok(rd) => {
+                        if open_fails { return Some(format!("{what}: opening succeeded although the header is incomplete")); }
+                        let mut vals = Vec::new(); let mut err = false;
+                        for it in rd { match it { Ok(v) => vals.push(v), Err(_) => { err = true; } } }
+                        if vals.len() != expect_vals || vals[..] != all[..expect_vals.min(all.len())] { return Some(format!("{what}: delivered {} values, expected exactly the first {expect_vals}", vals.len())); }
+                        if err != expect_err { return Some(format!("{what}: error reported = {err}, expected {expect_err}")); }
+                        None
+                    }
+                }
+            };
+            if let Some(off) = sc.get("flip").and_then(|x| x.as_u64()) {
+                let off = off as usize; let mut d = file.clone(); d[off] ^= 0xff;
+                // find the block whose marker contains `off`
+                let bi = boundaries.iter().position(|(e, _)| off < *e).unwrap_or(0);
+                let vals_before = if bi == 0 { 0 } else { boundaries[bi - 1].1 };
+                return Ok(check(&d, vals_before, true, bi == 0, format!("flip byte {off}")));
+            }
+            let cuts: Vec<usize> = match sc.get("cut").and_then(|x| x.as_u64()) { Some(c) => vec![c as usize], None => (0..=file.len()).collect() };
+            for c in cuts {
+                let hdr_len = boundaries[0].0;
+                let open_fails = c < hdr_len;
+                let (vals, on_boundary) = { let mut v = 0; let mut ob = false; for (e, n) in &boundaries { if *e <= c { v = *n; } if *e == c { ob = true; } } (v, ob) };
+                if let Some(m) = check(&file[..c], vals, !on_boundary, open_fails, format!("cut at {c} of {}", file.len())) { return Ok(Some(m)); }
+            }
+            Ok(None)
+        }
         k => Err(format!("unknown scenario kind {k:?}")),
     }
 }
